@@ -132,11 +132,61 @@ func (i *interpreter) findMethod(t types.Type, name string) *ssa.Function {
 	return nil
 }
 
+// structuredSprintf handles formats made of literal text and plain %v/%s/%d verbs when some
+// argument renders to structured symbolic text (e.g. the decimal text of a symbolic Int).
+func (i *interpreter) structuredSprintf(fr *frame, format string, args []value) (value, bool) {
+	var out []value
+	ai := 0
+	for k := 0; k < len(format); k++ {
+		c := format[k]
+		if c != '%' {
+			out = append(out, c)
+			continue
+		}
+		if k+1 >= len(format) {
+			return nil, false
+		}
+		k++
+		switch format[k] {
+		case '%':
+			out = append(out, byte('%'))
+		case 'v', 's', 'd':
+			if ai >= len(args) {
+				return nil, false
+			}
+			a := args[ai]
+			ai++
+			var text value
+			if n, ok := i.nativeArg(fr, a, 0); ok {
+				text = fmt.Sprint(n)
+			} else if itf, isI := a.(iface); isI && itf.t != nil {
+				if fn := i.findMethod(itf.t, "String"); fn != nil && fn.Signature.Params().Len() == 0 {
+					text = call(i, fr, token.NoPos, fn, []value{itf.v})
+				}
+			}
+			el, ok := strElems(text)
+			if !ok {
+				return nil, false
+			}
+			out = append(out, el...)
+		default:
+			return nil, false
+		}
+	}
+	if ai != len(args) {
+		return nil, false
+	}
+	return i.strFromElems(out), true
+}
+
 func (i *interpreter) sprintf(fr *frame, format string, args []value) value {
 	nat := make([]interface{}, len(args))
 	for k, a := range args {
 		n, ok := i.nativeArg(fr, a, 0)
 		if !ok {
+			if r, ok2 := i.structuredSprintf(fr, format, args); ok2 {
+				return r
+			}
 			return i.newSymStr("fmt")
 		}
 		nat[k] = n
